@@ -135,6 +135,13 @@ type Control struct {
 	KeepTrace bool
 	Trace    []string
 	TornDone string
+	// CrashEvent, when set, names the crash point by what it is instead of by its index: the
+	// CrashOcc-th mutation whose normalised form (NormEvent) equals it. Indices shift between
+	// executions when the subject writes a clock file only if the value it meets is higher and
+	// meets the values in Go map order.
+	CrashEvent string
+	CrashOcc   int
+	evCount    map[string]int
 	// a slow or stalled process: the first call whose kind is StallKind parks (Stalled is closed)
 	// until Release is closed, then goes on as if nothing had happened
 	StallKind string
@@ -211,7 +218,16 @@ func (c *Control) gate2(kind string, mut bool, detail, traceDetail string) (cras
 		c.RoBreach = append(c.RoBreach, kind+" "+detail)
 		return false, ErrReadOnly
 	}
-	if idx == c.CrashAt {
+	hit := idx == c.CrashAt
+	if c.CrashEvent != "" {
+		if c.evCount == nil {
+			c.evCount = map[string]int{}
+		}
+		ev := NormEvent(kind + " " + traceDetail)
+		c.evCount[ev]++
+		hit = ev == c.CrashEvent && c.evCount[ev] == c.CrashOcc
+	}
+	if hit {
 		c.Frozen = true
 		c.Crashed = true
 		c.logf("%s %s(%s) -> CRASH", c.Name, kind, detail)
@@ -733,4 +749,14 @@ func (o *Observer) Increment(name string) (lamport.Time, error) {
 func (o *Observer) Witness(name string, t lamport.Time) error {
 	c, _ := o.GetOrCreateClock(name)
 	return c.Witness(t)
+}
+
+// NormEvent reduces a mutation of the trace to what identifies it across executions: clock
+// witnesses and file writes keep their target, not the value or size that comes with it.
+func NormEvent(t string) string {
+	f := strings.Fields(t)
+	if len(f) >= 2 && (f[0] == "Witness" || f[0] == "fs.Write") {
+		return f[0] + " " + f[1]
+	}
+	return t
 }
